@@ -373,6 +373,12 @@ func CheckPath(pkgDir, abs string, dirOK map[string]bool) (info fs.FileInfo, rel
 		if _, err := os.Stat(filepath.Join(dir, "go.mod")); err == nil {
 			return nil, "", fmt.Errorf("cannot embed %s %s: in different module", what, rel)
 		}
+		if dir != abs {
+			// The match must not be reached through a symbolic link or other non-directory.
+			if info, err := os.Lstat(dir); err == nil && !info.IsDir() {
+				return nil, "", fmt.Errorf("cannot embed %s %s: in non-directory %s", what, rel, r)
+			}
+		}
 		elem := filepath.Base(dir)
 		if IsBadName(elem) {
 			if dir == abs {
